@@ -47,15 +47,16 @@ void opcase_run(opcase_t *c) {
   c->ran = 1;
 }
 
+/* coarse placement class used in violation keys */
 void opcase_placements(opcase_t *c, char *buf, size_t cap) {
-  buf[0] = 0;
   int allown = 1;
   for (int i = 0; i < MAXSLOT; i++)
     if (c->o[i] && c->o[i]->kind != PL_OWN) allown = 0;
-  if (allown) {
-    snprintf(buf, cap, "own");
-    return;
-  }
+  snprintf(buf, cap, allown ? "own" : "win");
+}
+/* per-slot placement tuple (coverage classes) */
+void opcase_placements_detail(opcase_t *c, char *buf, size_t cap) {
+  buf[0] = 0;
   size_t l = 0;
   for (int i = 0; i < MAXSLOT; i++) {
     if (c->op->role[i] == R_NONE) continue;
